@@ -139,6 +139,13 @@ func judgeDispatch(layout int, pv uint64, got uint, err error) (key, what string
 		}
 	}
 	if err != nil {
+		if layout == 12 {
+			// The statement quantifies over "both header layouts" (15- and 10-field).
+			// The Leios-extended 12-field Dijkstra header is a prototype layout outside
+			// it; answering "unknown" infers no era at all, which the statement allows.
+			// Only a *wrong* classification of such a header is judged (below).
+			return "", "", false
+		}
 		if nativeEra != nil && len(in) == 1 {
 			return fmt.Sprintf("C36:dispatch:%d-field:%s:rejected", layout, nativeEra.Name),
 				fmt.Sprintf("protocol major %d is inside %s's declared range [%d,%d] and the %d-field header is that era's own layout, but DetermineBlockType fails: %v",
